@@ -347,7 +347,7 @@ def mint (b : Bus) : Bus × Bytes := mintAux (b.services.length + 1) b
 
 /-- `bus_connection_complete`: the connection gets its name and its policy -/
 def activate (b : Bus) (c : ConnId) (nm : Bytes) : Bus :=
-  { (b.updConn c fun x => { x with name := some nm, policy := b.policy.clientRules x.uid x.gids false })
+  { (b.updConn c fun x => { x with name := some nm, policy := b.policy.clientPolicy b.limits.maxFdsDefault x.uid x.gids false })
     with minted := nm :: b.minted }
 
 /-! ### disconnect -/
@@ -742,7 +742,7 @@ def expireWhere (b : Bus) (due : Pending → Bool) : Tx :=
     (what a connection owns, waits for or has outstanding is not looked at again) -/
 def reloadPolicy (b : Bus) (p : Policy) : Bus :=
   { b with policy := p,
-           conns := b.conns.map fun x => if x.name.isSome then { x with policy := p.clientRules x.uid x.gids false } else x }
+           conns := b.conns.map fun x => if x.name.isSome then { x with policy := p.clientPolicy b.limits.maxFdsDefault x.uid x.gids false } else x }
 
 def step (tbl : List IfaceRow) (b : Bus) : Ev → Tx
   | .connect c uid gids canFd =>
